@@ -19,6 +19,7 @@ import (
 	"time"
 
 	"github.com/piotrnar/gocoin/client/common"
+	"github.com/piotrnar/gocoin/client/mainlib"
 	"github.com/piotrnar/gocoin/client/network"
 	"github.com/piotrnar/gocoin/client/peersdb"
 	"github.com/piotrnar/gocoin/client/txpool"
@@ -51,6 +52,13 @@ type NetMsg struct {
 type NetH struct{}
 
 func (NetH) Name() string { return "netsim" }
+
+func (NetH) Prepare(t *testing.T, c *hx.Case) {
+	nc := &NetCfg{}
+	if json.Unmarshal(c.Cfg, nc) == nil {
+		ensureTemplate(&nc.Cfg, &hx.Outcome{})
+	}
+}
 
 var netCmds = []string{"version", "verack", "addr", "inv", "getdata", "notfound", "getblocks", "getheaders", "headers", "tx", "block",
 	"cmpctblock", "getblocktxn", "blocktxn", "ping", "pong", "feefilter", "sendcmpct", "sendheaders", "getaddr", "getmp", "xauth", "authack", "getmpdone", "mempool", "filterload", "wtfisthis", ""}
@@ -112,8 +120,8 @@ func (NetH) Gen(prop string, seed uint64, tier string) *hx.Case {
 				switch r.Pick(30, 15, 20, 15, 20) {
 				case 4: // headers first; the node asks for the block with getdata; the peer answers with the block, or with something else
 					add("headers", "hdr-new")
-					switch r.Intn(5) {
-					case 4:
+					switch r.Intn(6) {
+					case 4, 5:
 						slow("block", "blk-rule")
 					case 0, 1:
 						slow("block", "blk-planned")
@@ -136,7 +144,7 @@ func (NetH) Gen(prop string, seed uint64, tier string) *hx.Case {
 						add("blocktxn", []string{"bt-valid", "bt-fewer", "bt-none"}[r.Intn(3)])
 					}
 				case 2: // a malformed announcement
-					add("cmpctblock", []string{"cb-idx-overflow", "cb-idx-overflow", "cb-prefilled-trunc", "cb-neg-witness", "cb-dup-shortid", "cb-count-mismatch", "cb-full", "cb-size-loop"}[r.Intn(8)])
+					add("cmpctblock", []string{"cb-idx-overflow", "cb-idx-overflow", "cb-prefilled-trunc", "cb-neg-witness", "cb-dup-shortid", "cb-count-mismatch", "cb-full", "cb-size-loop", "cb-rule", "cb-rule"}[r.Intn(10)])
 				case 3: // the peer asks for transactions of a block the node has
 					add("getblocktxn", []string{"gbt-valid", "gbt-range", "gbt-huge", "gbt-wrap", "gbt-many"}[r.Intn(5)])
 				}
@@ -576,8 +584,9 @@ func (n *netRun) convPayload(m *NetMsg, r *hx.Rng) (pl []byte, ok bool) {
 		delete(n.plans, p)
 		n.m.R = r
 		kind := ledger.C05Violations[r.Intn(len(ledger.C05Violations))]
-		if kind == "weight-over" || kind == "time-future" {
-			kind = "witness-nonce-size"
+		if kind == "weight-over" || kind == "time-future" || r.Chance(0.4) {
+			// the commitment family is what the network path checks after the header has been accepted
+			kind = []string{"witness-nonce-size", "witness-nonce-size", "witness-commit-wrong", "witness-missing-commit", "witness-commit-two"}[r.Intn(5)]
 		}
 		par := n.l.Nodes[cp.blk.H.Prev]
 		if par == nil || !n.m.MutateC05(par, cp.blk, kind, time.Now().Unix()) {
@@ -592,20 +601,29 @@ func (n *netRun) convPayload(m *NetMsg, r *hx.Rng) (pl []byte, ok bool) {
 		}
 		cp.sentTx++
 		return cp.blk.Txs[cp.sentTx].Bytes(true), true
-	case "cb-short", "cb-full", "cb-idx-overflow", "cb-prefilled-trunc", "cb-neg-witness", "cb-dup-shortid", "cb-count-mismatch", "cb-size-loop":
+	case "cb-short", "cb-full", "cb-rule", "cb-idx-overflow", "cb-prefilled-trunc", "cb-neg-witness", "cb-dup-shortid", "cb-count-mismatch", "cb-size-loop":
 		cp := n.plan(p, r)
 		if cp == nil {
 			return nil, false
+		}
+		if m.Kind == "cb-rule" {
+			// the announced block breaks a commitment rule: found only after the node has put it together
+			n.m.R = r
+			kind := []string{"witness-nonce-size", "witness-nonce-size", "witness-commit-wrong", "witness-missing-commit", "witness-commit-two", "bad-merkle", "merkle-dup"}[r.Intn(7)]
+			if par := n.l.Nodes[cp.blk.H.Prev]; par != nil {
+				n.m.MutateC05(par, cp.blk, kind, time.Now().Unix())
+			}
 		}
 		b := cp.blk
 		nonce := r.Bytes(8)
 		pre := make([]bool, len(b.Txs))
 		pre[0] = true
 		switch m.Kind {
-		case "cb-full":
+		case "cb-full", "cb-rule":
 			for i := range pre {
-				pre[i] = true
+				pre[i] = m.Kind == "cb-full" || r.Chance(0.7)
 			}
+			pre[0] = true
 		case "cb-short":
 			for i := 1; i < len(pre); i++ {
 				pre[i] = r.Chance(0.2)
@@ -1045,6 +1063,7 @@ func (NetH) Run(t *testing.T, c *hx.Case) *hx.Outcome {
 		common.RecalcAverageBlockSize() // client/main.go does this before the network starts
 		common.BlockChainSynchronized.Store(true)
 		txpool.InitMempool()
+		mainlib.ResetForSim()
 		// channels created at package init are not durable for synctest: re-make them inside the bubble
 		network.NetBlocks = make(chan *network.BlockRcvd, 512)
 		network.NetTxs = make(chan *txpool.TxRcvd, 2048)
@@ -1066,6 +1085,10 @@ func (NetH) Run(t *testing.T, c *hx.Case) *hx.Outcome {
 				case nb := <-network.NetBlocks:
 					simrt.Woken()
 					n.mainBlock(nb)
+					if mainlib.RetryFlag() {
+						// the client's main loop: "if retryCachedBlocks { retryCachedBlocks = retry_cached_blocks() }"
+						mainlib.RetryCachedBlocks()
+					}
 				case tx := <-network.NetTxs:
 					simrt.Woken()
 					txpool.HandleNetTx(tx)
@@ -1175,7 +1198,7 @@ func (NetH) Run(t *testing.T, c *hx.Case) *hx.Outcome {
 		}
 		simrt.Sleep(200 * time.Millisecond)
 		for _, cn := range n.conns {
-			cn.Push(0, nil, simnet.ErrReset)
+			cn.Abort(simnet.ErrReset) // (a peer that dribbles 400 kB one byte at a time is cut off here, not waited for)
 		}
 		for i := 0; i < 400; i++ {
 			all := true
@@ -1301,36 +1324,14 @@ func (NetH) Run(t *testing.T, c *hx.Case) *hx.Outcome {
 
 // mainBlock re-states client/main.go:HandleNetBlock + LocalAcceptBlock for a block handed over by a handler.
 func (n *netRun) mainBlock(nb *network.BlockRcvd) {
-	if nb == nil || nb.BlockTreeNode == nil || nb.Block == nil {
+	if nb == nil || nb.BlockTreeNode == nil {
 		return
 	}
-	ch := n.n.Ch
-	network.MutexRcv.Lock()
-	disc := nb.BlockTreeNode.Parent != nil && network.DiscardedBlocks[nb.BlockTreeNode.Parent.BlockHash.BIdx()]
-	network.MutexRcv.Unlock()
-	if disc {
-		return
-	}
-	if !ch.HasAllParents(nb.BlockTreeNode) {
-		network.CachedBlocksAdd(nb)
-		return
-	}
-	ch.Unspent.AbortWriting()
-	ch.Blocks.BlockAdd(nb.BlockTreeNode.Height, nb.Block)
-	network.MutexRcv.Lock()
-	nb.Block.LastKnownHeight = network.LastCommitedHeader.Height
-	network.MutexRcv.Unlock()
-	e := ch.CommitBlock(nb.Block, nb.BlockTreeNode)
-	common.Last.Mutex.Lock()
-	common.Last.Block = ch.LastBlock()
-	common.Last.Mutex.Unlock()
-	if e != nil {
-		network.MutexRcv.Lock()
-		network.DiscardBlock(nb.BlockTreeNode)
-		network.MutexRcv.Unlock()
-	} else {
-		common.RecalcAverageBlockSize()
+	// the client's own handler (client/main.go: HandleNetBlock -> LocalAcceptBlock -> retry_cached_blocks)
+	before := n.n.Ch.LastBlock()
+	mainlib.HandleNetBlock(nb)
+	if after := n.n.Ch.LastBlock(); after != before {
 		n.out.Probe("block_from_peer_connected", 1)
-		n.noteConnected(nb.Block.Hash.Hash)
+		n.noteConnected(after.BlockHash.Hash)
 	}
 }
